@@ -256,6 +256,8 @@ def gen_c01_spec(rng: random.Random, maxn: int = 40) -> Dict[str, Any]:
         if kind == "valid" and rng.random() < 0.15:
             m["partial_types"] = True
             m["labels"] = {"origin": "cron", "trace": "t-1"}
+        elif kind == "valid" and rng.random() < 0.1:
+            m["labels"] = rng.choice([{"sig": b"hello world!", "n": 3}, {"blob": b"\xfb\xff\xfe"}, {"f": 1.5, "flag": True, "raw": b"ab?"}])
         if kind == "valid" and rng.random() < 0.12:
             # a parameter annotated with a plain class (no pydantic schema), value sent by keyword or position
             m["task"] = "t_plain" if m["task"] != "t_sync" else "t_plain_sync"
@@ -272,6 +274,10 @@ def gen_c01_spec(rng: random.Random, maxn: int = 40) -> Dict[str, Any]:
         # and known afterwards
         at = round(rng.choice([0.05, 0.2, 0.33, 0.5, 1.0]) + 0.0137, 4)
         spec["tasks"] = {"t_late": {"fn": rng.choice(["async", "sync"]), "late_at": at}}
+        if rng.random() < 0.5:
+            # ... with an injected parameter in the Annotated style, on a worker that does not parse arguments
+            spec["tasks"]["t_late"]["ctx"] = "annotated"
+            spec["cfg"]["validate"] = rng.random() < 0.5
         for m in msgs:
             if m["kind"] == "valid" and m["task"] in ("t_async", "t_sync") and rng.random() < 0.6:
                 m["task"] = "t_late"
@@ -1439,6 +1445,9 @@ def gen_c10_spec(rng: random.Random) -> Dict[str, Any]:
             beh["dur"] = [rng.choice([0.3, 1.0])]
             beh["cleanup"] = rng.choice([["y"], [0.05], [0.3]])
             sends[-1]["labels"] = {"timeout": rng.choice([0.02, 0.1])}
+        elif task == "t_async" and rng.random() < 0.06:
+            # a timeout label that is not a number: the execution fails like any other failing execution
+            sends[-1]["labels"] = {"timeout": rng.choice(["soon", "", "1s"])}
         if rng.random() < 0.08:
             sends[-1]["bad_arg"] = True  # the message cannot be encoded: the send fails before the broker is reached
         elif rng.random() < 0.12:
@@ -1461,7 +1470,7 @@ def gen_c10_spec(rng: random.Random) -> Dict[str, Any]:
         spec["kick_lat"] = 0
     elif rng.random() < 0.2:
         # SimpleRetryMiddleware somewhere in the stack: its re-sends are sends too (pre_send . kick . post_send)
-        spec["retry"] = {"default_count": 3, "default_label": False, "no_result_on_retry": False, "pos": rng.randint(0, len(mws))}
+        spec["retry"] = {"default_count": 3, "default_label": False, "no_result_on_retry": rng.random() < 0.5, "pos": rng.randint(0, len(mws))}
         spec["kick_fail"] = []
         for s_ in sends:
             s_.pop("via_broker2", None)
